@@ -122,6 +122,11 @@ def directed(rng):
         add('cancel-waiter-batch-%d' % v, {'conc': 1 + v % 2}, [S(call(1), call(2), call(3)), D, dict(a='cancel', id='3'), D, hret('m1.1'), D, hret('m1.2'), D])
         add('cancel-waiter-gate-%d' % v, {'conc': 1}, [S(call(1)), D, S(call(2)), dict(a='gate', site='srv.read.lock'), dict(a='gate', site='srv.next.lock', soft=True),
                                                        dict(a='gate', site='srv.barrier.wait'), dict(a='cancel', id='2'), D, hret('m1.1'), D])
+        # ... also when a slot becomes free between the cancellation and the moment the waiter looks at the semaphore
+        add('cancel-waiter-then-free-%d' % v, {'conc': 1}, [S(call(1)), D, S(call(2)), dict(a='gate', site='srv.read.lock'), dict(a='gate', site='srv.next.lock', soft=True),
+                                                            dict(a='gate', site='srv.barrier.wait'), dict(a='cancel', id='2'), hret('m1.1', OUTS_ERR[v]), D, S(call(2)), D, hret('m3.1'), D])
+        add('cancel-waiter-then-free-batch-%d' % v, {'conc': 2}, [S(call(1), call(2)), D, S(call(3), call(4)), dict(a='gate', site='srv.read.lock'), dict(a='gate', site='srv.next.lock', soft=True),
+                                                                  dict(a='gate', site='srv.barrier.wait'), dict(a='cancel', id=str(3 + v % 2)), hret('m1.1'), hret('m1.2'), D, hret('m2.%d' % (2 - v % 2)), D])
         # the base context (ServerOptions.NewContext) ends: running calls see it, waiting ones never run, later ones are refused
         add('baseend-%d' % v, {'conc': 1 + v % 2, 'basectx': True}, [S(call(1)), D, S(call(2), call(3)), D, dict(a='baseend'), D, hret('m1.1', 'ctxerr'), D,
                                                                     S(call(1)), D])
